@@ -85,6 +85,15 @@ def mc_math_cfg(fams, tier, dfrac=10):
     return c
 
 
+def pool_kinds(pid, tier):
+    """Pair kinds of MC_Pool: native/native, native/cw20, cw20/cw20 and the alias pair (a cw20 token and the bank denom
+    spelled like its address).  Quick: one of the first three per property (all are covered across the properties),
+    plus the alias pair for the properties that read the swap event's bare identifiers; thorough: all four."""
+    if tier == 'thorough':
+        return ['NN', 'NC', 'CC', 'AL']
+    return [['NN', 'NC', 'CC'][int(pid[1:]) % 3]] + (['AL'] if pid in ('C02', 'C06') else [])
+
+
 def mc_pool_cfg(kind, tier, full=True, depth=None):
     c = core.int_consts()
     c += '  KIND = "%s"\n' % kind
@@ -160,11 +169,7 @@ def run_mc(pid, tier, workdir):
         if module == 'MC_Math':
             runs = [(fams, mc_math_cfg(fams, tier))]
         elif module == 'MC_Pool':
-            kinds = ['NN', 'NC', 'CC']
-            if tier == 'quick':
-                # one pair kind per property in the quick tier (all three kinds are covered across the properties;
-                # the thorough tier runs all of them, one step deeper)
-                kinds = [kinds[int(pid[1:]) % 3]]
+            kinds = pool_kinds(pid, tier)
             runs = [('kind=%s all shapes depth 3' % k, mc_pool_cfg(k, tier)) for k in kinds]
             if tier == 'thorough':
                 # one step deeper over the well-formed operation shapes
@@ -280,8 +285,8 @@ def check(pid, tier, seed):
         if (dirb_pool or dirb_sys) and not os.environ.get('VERIF_TRACES_ONLY'):
             scs, kinds = [], []
             if dirb_pool:
-                kinds = ['NN', 'NC', 'CC'] if tier == 'thorough' else [['NN', 'NC', 'CC'][int(pid[1:]) % 3]]
-                num, depth = (3000, 10) if tier == 'thorough' else (240, 8)
+                kinds = pool_kinds(pid, tier)
+                num, depth = (3000, 10) if tier == 'thorough' else (240 if len(kinds) == 1 else 160, 8)
                 for k in kinds:
                     # three quarters of the behaviours over the well-formed shapes, one quarter over all shapes
                     for full, share in ((False, 3), (True, 1)):
